@@ -131,9 +131,8 @@ func (c *client) sendCBOR(message any) error {
 	c.mutex.Lock()
 	defer c.mutex.Unlock()
 	vh("c.send", "msg", message)
-	err := c.encoder.Encode(message)
-	vh("c.sent", "msg", message, "err", err)
-	return err
+	defer vh("c.sent", "msg", message)
+	return c.encoder.Encode(message)
 }
 
 func (c *client) ReadSchema() (*schema.SchemaSchema, error) {
